@@ -199,8 +199,32 @@ def compare_sg(ctx, sg_df, expected, g, case, sig, what=""):
 
 
 # ---- the calls under test ----------------------------------------------------------------------------
-def api_export(df, reset, variant):
+def apply_hist(m, hist, g):
+    """The list operations of a case, performed on the live object (they leave non-default row labels behind)."""
+    for h in hist or []:
+        if h["op"] == "remove":
+            m.remove_feature("class", g.val[h["cls"]])
+            continue
+        idx = [i - 1 for i in h["idx"]]
+        n = m.df.shape[0]
+        if idx == sorted(idx) and len(set(idx)) == len(idx):
+            mask = np.zeros(n, dtype=bool)
+            mask[idx] = True
+            m.df = m.df[mask]
+        elif sorted(idx) == list(range(n)):
+            key = np.empty(n)
+            key[idx] = np.arange(n, dtype=float)
+            m.df = m.df.assign(geom1=key).sort_values("geom1")
+        else:
+            m.df = m.df.iloc[idx]
+
+
+def api_export(df, reset, variant, hist=None, g=None):
     from cryocat.cryomotl import StopgapMotl
+    if hist:
+        m = StopgapMotl(df)
+        apply_hist(m, hist, g)
+        return StopgapMotl.convert_to_sg_motl(m.df, reset_index=reset)
     if not reset and variant % 2 == 0:
         return StopgapMotl.convert_to_sg_motl(df)
     return StopgapMotl.convert_to_sg_motl(df, reset_index=reset)
@@ -222,8 +246,13 @@ def api_import(sg_df, variant):
     return cryomotl.Motl.load(sg_df, "stopgap").df
 
 
-def api_write(df, path, update, reset, variant):
+def api_write(df, path, update, reset, variant, hist=None, g=None):
     from cryocat import cryomotl
+    if hist:
+        m = cryomotl.StopgapMotl(df)
+        apply_hist(m, hist, g)
+        m.write_out(path, update_coord=update, reset_index=reset)
+        return m.df
     if variant % 3 == 0:
         m = cryomotl.StopgapMotl(df)
         m.write_out(path, update_coord=update, reset_index=reset)
@@ -276,7 +305,7 @@ class Runner:
         if op["name"] == "export":
             df = motlutil.vary_index(build_motl_df(case["pre"], g, rng), variant // 2)
             keep = df.copy()
-            res, err = core.call_guarded(api_export, df, op["reset"], variant)
+            res, err = core.call_guarded(api_export, df, op["reset"], variant, case.get("hist"), g)
             if err is not None:
                 ctx.fail("call_raises", "convert_to_sg_motl: %s" % err, case, sig)
                 return None
@@ -350,14 +379,15 @@ class Runner:
         elif name == "write":
             df = motlutil.vary_index(build_motl_df(case["pre"], g, rng), variant // 2)
             path = os.path.join(ctx.workdir, "sgout_%d_%d.star" % (os.getpid(), self.n))
-            res, err = core.call_guarded(api_write, df, path, op["update"], op["reset"], variant)
+            hist = case.get("hist")
+            res, err = core.call_guarded(api_write, df, path, op["update"], op["reset"], variant, hist, g)
             if err is not None:
                 ctx.fail("call_raises", "write_out: %s" % err, case, sig)
                 return
             # the live object after the call holds the (possibly updated) list
             compare_motl(ctx, res, case["rows"], g, "C04_UpdateCoord", case, sig,
-                         "list returned by emmotl2stopgap without an output path" if variant % 3 == 2 else "list held after write_out")
-            if variant % 3 == 2:
+                         "list returned by emmotl2stopgap without an output path" if variant % 3 == 2 and not hist else "list held after write_out")
+            if variant % 3 == 2 and not hist:
                 return
             if not os.path.exists(path):
                 ctx.fail("C04_FileWellFormed", "write_out wrote no file", case, sig)
@@ -372,7 +402,7 @@ class Runner:
                 if DEMO == "corrupt_loaded" and loaded["n"]:
                     loaded["cols"]["psi"], loaded["cols"]["theta"] = loaded["cols"]["theta"], loaded["cols"]["psi"]
             os.remove(path)
-            self.traces.append(({"rows": case["pre"], "update": op["update"], "reset": op["reset"],
+            self.traces.append(({"rows": case["pre"], "hist": hist or [], "update": op["update"], "reset": op["reset"],
                                  "gamma": g.canon_table(), "spell": spelling(), "lines": lines, "loaded": loaded},
                                 case, sig, lerr))
         else:
@@ -410,8 +440,8 @@ class Runner:
         self.traces = []
 
 
-def case_from_tr(tr, U, gseed, variant, pre=None):
-    return {"kind": "tr", "U": U, "pre": pre if pre is not None else tr["pre"], "op": tr["op"], "rows": tr["rows"],
+def case_from_tr(tr, U, gseed, variant, pre=None, hist=None):
+    return {"kind": "tr", "U": U, "hist": hist or [], "pre": pre if pre is not None else tr["pre"], "op": tr["op"], "rows": tr["rows"],
             "sg": tr["sg"], "sgin": tr["sgin"], "back": tr["back"], "backu": tr["backu"], "gseed": gseed, "variant": variant}
 
 
@@ -453,6 +483,31 @@ def gen_list(rng, n, U):
     return rows
 
 
+def gen_hist(rng, classes):
+    """0-2 list operations between construction and conversion (load -> clean -> export); at least one particle survives."""
+    hist = []
+    if rng.random() < 0.45:
+        return hist
+    live = list(classes)
+    for _ in range(rng.randint(1, 2)):
+        n = len(live)
+        k = rng.random()
+        if k < 0.35 and n > 1:
+            c = rng.choice(live)
+            hist.append({"op": "remove", "cls": c, "idx": []})
+            live = [x for x in live if x != c]
+            continue
+        if k < 0.6:
+            idx = sorted(rng.sample(range(1, n + 1), rng.randint(1, n)))
+        elif k < 0.9:
+            idx = rng.sample(range(1, n + 1), n)
+        else:
+            idx = rng.sample(range(1, n + 1), rng.randint(1, n))
+        hist.append({"op": "select", "cls": 0, "idx": idx})
+        live = [live[i - 1] for i in idx]
+    return hist
+
+
 def run_seeded(ctx, U, sizes, tag):
     wd = ctx.sub("cases_%s" % tag)
     path = os.path.join(wd, "cases.ndjson")
@@ -461,7 +516,7 @@ def run_seeded(ctx, U, sizes, tag):
         for n in sizes:
             rows = gen_list(ctx.rng, n, U)
             c = {"rows": rows, "path": ctx.rng.choice(["mem", "file", "file"]), "reset": ctx.rng.random() < 0.5,
-                 "update": ctx.rng.random() < 0.5}
+                 "update": ctx.rng.random() < 0.5, "hist": gen_hist(ctx.rng, [p["class"] for p in rows])}
             cases.append(c)
             fh.write(json.dumps(c) + "\n")
     res = ctx.tlc("StopgapCases", cfg(["INIT CaseInit", "NEXT CaseNext"], U).replace("CONSTANTS", "CONSTANTS\n InitLists = {}"),
@@ -473,7 +528,8 @@ def run_seeded(ctx, U, sizes, tag):
     r = Runner(ctx, U)
     for k, tr in enumerate(sorted(trs, key=lambda t: (t["cid"], t["op"]["name"] in ("import", "load")))):
         c = cases[tr["cid"] - 1]
-        r.run_case(case_from_tr(tr, U, ctx.seed * 100003 + tr["cid"], ctx.seed + tr["cid"] + k, pre=c["rows"]))
+        r.run_case(case_from_tr(tr, U, ctx.seed * 100003 + tr["cid"], ctx.seed + tr["cid"] + k, pre=c["rows"],
+                                hist=c["hist"] if tr["op"]["name"] in ("export", "write") else None))
     r.validate_files("files_%s" % tag)
     return len(cases)
 
